@@ -366,6 +366,13 @@ def run_property(pid, tier, seed, only=None, procs=None):
             ps["violations"] += 1
             violations.append(dict(v, origin="%s[%d]" % (r["sub"], r["shard"])))
 
+    # 2b. coverage-guided second engine (thorough tier only)
+    fuzz_info = None
+    if tier == "thorough" and only is None:
+        fuzz_info = _run_atheris(pid, seed, ctx, violations, errors)
+        if fuzz_info and fuzz_info.get("evals"):
+            evals += fuzz_info["evals"]
+
     # 3. one report per site (keep the simplest case)
     by_site = {}
     for v in violations:
@@ -421,6 +428,8 @@ def run_property(pid, tier, seed, only=None, procs=None):
         "wall_s": round(wall, 2),
         "violations": len(by_site),
     }
+    if fuzz_info is not None:
+        evidence["coverage"]["atheris"] = fuzz_info
     if hasattr(mod, "extra_evidence"):
         try:
             evidence["coverage"].update(mod.extra_evidence(tier))
@@ -438,6 +447,60 @@ def run_property(pid, tier, seed, only=None, procs=None):
     if errors:
         return 2
     return 0
+
+
+def _run_atheris(pid, seed, ctx, violations, errors):
+    """libFuzzer campaign on the byte->case decoder of pbt/fuzz/atheris_target.py; wall-clock capped (a cap hit is
+    'inconclusive for the remainder', never a violation); a reported case is re-checked here before it counts"""
+    import shutil
+    import subprocess
+    import tempfile
+    try:
+        from .fuzz import atheris_target
+    except Exception as e:  # noqa
+        return {"status": "unavailable: %s" % e}
+    if pid not in atheris_target.DECODERS:
+        return None
+    deps = os.path.join(VERIF, ".deps")
+    env = dict(os.environ, PYTHONPATH=VERIF + os.pathsep + deps + os.pathsep + os.environ.get("PYTHONPATH", ""))
+    r = subprocess.run([sys.executable, "-c", "import atheris"], env=env, capture_output=True)
+    if r.returncode != 0:
+        return {"status": "atheris unavailable (thorough tier relies on Hypothesis and the enumerators)"}
+    secs = int(os.environ.get("VERIF_FUZZ_SECONDS", "120"))
+    tmp = tempfile.mkdtemp(prefix="smfuzz_")
+    info = {"status": "ran", "seconds": secs, "campaigns": []}
+    try:
+        procs = []
+        for k in range(4):          # four independent campaigns with different libFuzzer seeds, empty corpus
+            cdir = os.path.join(tmp, "corpus%d" % k)
+            os.makedirs(cdir)
+            res = os.path.join(tmp, "res%d.json" % k)
+            cmd = [sys.executable, "-W", "ignore", "-m", "pbt.fuzz.atheris_target", pid, res, cdir,
+                   "-max_total_time=%d" % secs, "-seed=%d" % (derive_seed(seed, pid, "atheris", k) % (2 ** 31 - 1) + 1),
+                   "-max_len=2048", "-len_control=0", "-artifact_prefix=" + tmp + os.sep]
+            procs.append((subprocess.Popen(cmd, env=env, cwd=VERIF, stdout=subprocess.DEVNULL, stderr=subprocess.DEVNULL), res))
+        total = 0
+        for pr, res in procs:
+            try:
+                pr.wait(timeout=secs + 120)
+            except subprocess.TimeoutExpired:
+                pr.kill()
+            try:
+                with open(res) as f:
+                    doc = json.load(f)
+            except Exception:  # noqa
+                continue
+            total += doc.get("evals", 0)
+            info["campaigns"].append({"executions": doc.get("execs", 0), "distinct_nontrivial": doc.get("distinct_nontrivial", 0),
+                                      "violation": bool(doc.get("violation"))})
+            v = doc.get("violation")
+            if v:
+                for vv in ctx.evaluate(v["case"], counting=False):     # re-check in this process before it counts
+                    violations.append(dict(vv, case=v["case"], origin="atheris"))
+        info["evals"] = total
+    finally:
+        shutil.rmtree(tmp, ignore_errors=True)
+    return info
 
 
 def _slug(s):
